@@ -45,7 +45,7 @@ def reader_at(st, nbytes, bitpos, last=0):
     if bitpos % 8:
         bits = byte_bits_msb(byte_val(consumed - 1))
         left = tuple(bits[bitpos % 8:])
-    rd = Opaque.make("reader", inner=RefVal(sloc, True), leftover=left, last=last, bits_read=bitpos)
+    rd = Opaque.make("reader", inner=RefVal(sloc, True), leftover=left, last=last, bits_read=bitpos, skew=0)
     rloc = st.new_heap(rd)
     return RefVal(rloc, True)
 
